@@ -146,9 +146,9 @@ func notWire(x any) string {
 }
 
 type chainFail struct {
-	step string // validate | serialize | unserialize_direct | unserialize_cbor | reserialize | cbor | typed_*
-	div  string // rejects | value | panic | not_wire
-	det  map[string]any
+	step  string // validate | serialize | unserialize_direct | unserialize_cbor | reserialize | cbor | typed_*
+	div   string // rejects | value | panic | not_wire
+	det   map[string]any
 	frame string
 }
 
